@@ -5,6 +5,17 @@ From V.C14 Require Import SerModel.
 Import ListNotations.
 Open Scope N_scope.
 
+(* 0..n-1 integer keys in order: a list; otherwise a map keyed by the keys' names (a key that is
+   itself an array has no name: outside the model) *)
+Definition arr_value (kvs : list (value * value)) : option value :=
+  if sequential 0 kvs then Some (VList (map snd kvs))
+  else match build_map kvs [] with Some m => Some (VMap m) | None => None end.
+
+(* the (key, value) pairs an ArrayValue with named slots stands for *)
+Definition slot_pairs {A} (f : value -> A) : N -> list (bytes * value) -> list (value * A) :=
+  fix go (i : N) (l : list (bytes * value)) : list (value * A) :=
+    match l with [] => [] | (nm, x) :: r => (slot_key i nm, f x) :: go (i + 1) r end.
+
 (* the PHP value an Origami value stands for: an empty ObjectValue and an empty ArrayValue are
    both the empty array (unserialize returns the latter) *)
 Fixpoint canon (v : value) : value :=
@@ -12,6 +23,8 @@ Fixpoint canon (v : value) : value :=
   | VList l => VList (map canon l)
   | VMap [] => VList []
   | VMap l => VMap (map (fun kv => (fst kv, canon (snd kv))) l)
+  | VArr l => (* the array with the slots' keys: a list when they are 0..n-1 in order, a map otherwise *)
+              match arr_value (slot_pairs canon 0 l) with Some v' => v' | None => VNull end
   | _ => v
   end.
 
@@ -35,6 +48,7 @@ Fixpoint serializable (v : value) : bool :=
   | VStr s => len_ok s
   | VList l => len_ok l && forallb serializable l
   | VMap l => len_ok l && nodup_keys l && forallb (fun kv => len_ok (fst kv) && serializable (snd kv)) l
+  | VArr l => len_ok l && forallb (fun kv => len_ok (fst kv) && serializable (snd kv)) l
   end.
 
 (* ------------------------------------------------------------------ the grammar of serialize texts *)
@@ -45,12 +59,6 @@ Fixpoint serializable (v : value) : bool :=
 Definition digits (ds : bytes) : Prop := ds <> [] /\ Forall (fun c => is_digit c = true) ds.
 Definition sign_text (sg : bytes) (neg : bool) : Prop :=
   (sg = [] /\ neg = false) \/ (sg = [45] /\ neg = true) \/ (sg = [43] /\ neg = false).
-
-(* 0..n-1 integer keys in order: a list; otherwise a map keyed by the keys' names (a key that is
-   itself an array has no name: outside the model) *)
-Definition arr_value (kvs : list (value * value)) : option value :=
-  if sequential 0 kvs then Some (VList (map snd kvs))
-  else match build_map kvs [] with Some m => Some (VMap m) | None => None end.
 
 Inductive ser_text : bytes -> value -> Prop :=
 | st_null : ser_text [78; 59] VNull
